@@ -157,14 +157,16 @@ pub(super) mod udp {
     pub struct DatagramPacketCodec<'a, const N: usize> {
         codec: SessionCodec<'a, N>,
         session: Session<N>,
-        filter: PacketWindowFilter,
+        // one replay window per server session (the server starts a new session, with packet ids from 1, when its
+        // association expired or it restarted); the current one and its predecessor are kept
+        filters: Vec<(u64, PacketWindowFilter)>,
         // the legacy AEAD ciphers carry no packet id (every datagram decodes to id 0)
         check_packet_id: bool,
     }
 
     impl<const N: usize> DatagramPacketCodec<'_, N> {
         pub fn new(codec: SessionCodec<N>, check_packet_id: bool) -> DatagramPacketCodec<'_, N> {
-            DatagramPacketCodec { codec, session: Session::from(Mode::Client), filter: PacketWindowFilter::default(), check_packet_id }
+            DatagramPacketCodec { codec, session: Session::from(Mode::Client), filters: Vec::with_capacity(2), check_packet_id }
         }
     }
 
@@ -188,7 +190,14 @@ pub(super) mod udp {
             } else {
                 match self.codec.decode(src)? {
                     Some((content, addr, session)) => {
-                        if self.check_packet_id && !self.filter.validate_packet_id(session.packet_id, u64::MAX) {
+                        if self.check_packet_id && !self.filters.iter().any(|(id, _)| *id == session.server_session_id) {
+                            if self.filters.len() == 2 {
+                                self.filters.remove(0);
+                            }
+                            self.filters.push((session.server_session_id, PacketWindowFilter::default()));
+                        }
+                        let filter = self.filters.iter_mut().find(|(id, _)| *id == session.server_session_id).map(|(_, f)| f);
+                        if self.check_packet_id && !filter.is_some_and(|f| f.validate_packet_id(session.packet_id, u64::MAX)) {
                             log::warn!("[udp] drop packet, packet_id out of window; session={}", session);
                             return Ok(None);
                         }
